@@ -395,3 +395,199 @@ def apply_options(sc: Scenario, opts: dict) -> Scenario:
                    notes=dict(sc.notes))
     out.notes["options"] = dict(opts)
     return out
+
+
+# ------------------------------------------------------------------------------ fragment / mixin graphs (C08's zoo)
+def frag_graphs(seed: int, rng: random.Random) -> Scenario | None:
+    """fragment graphs of vh.gen.frag_scen (chains of depth 3-5 with both ends spread, diamonds, fragments shared
+    by operations as base and unpacked, interface/union/inline shapes, mixins on fields and fragment definitions)
+    plus, half of the time, one more operation per fragment type that spreads EVERY fragment on that type side by
+    side (redundant spreads of several ancestors of one chain / all corners of a diamond)."""
+    from . import frag_scen
+
+    try:
+        sc = frag_scen.make(seed)
+    except RuntimeError:
+        return None
+    queries = sc.queries
+    extra = 0
+    if rng.random() < 0.5:
+        doc = parse(sc.queries, no_location=True)
+        by_type: dict = {}
+        for d in doc.definitions:
+            if isinstance(d, FragmentDefinitionNode):
+                by_type.setdefault(d.type_condition.name.value, []).append(d.name.value)
+        roots = {"Animal": "animal", "Dog": "dog", "Cat": "cat", "Person": "person", "Pet": "pet"}
+        for t, names in by_type.items():
+            if len(names) >= 2 and t in roots:
+                names = list(names)
+                rng.shuffle(names)
+                cand = queries + f"\nquery AllOf{t} {{ {roots[t]} {{ " + " ".join("..." + n for n in names) + " } }\n"
+                if valid(sc.sdl, cand):
+                    queries = cand
+                    extra += 1
+    return Scenario(seed=sc.seed, sdl=sc.sdl, queries=queries, config=dict(sc.config), features=("frag_graphs",),
+                    files=dict(sc.files), notes={"shape": sc.notes["shape"], "n_frags": sc.notes["n_frags"],
+                                                 "all_of_ops": extra, "pinned": []})
+
+
+# ------------------------------------------------------------- every kind of reference between generated modules
+ENUM_VALUE_POOL = {
+    "keyword": ["class", "from", "None", "True", "False", "import", "lambda", "async", "await", "def", "not", "in", "is"],
+    "soft_keyword": ["type", "match", "case", "_"],
+    "enum_attribute": ["name", "value", "values", "keys", "self", "cls"],
+    "str_method": ["lower", "upper", "format", "join", "title", "count", "index", "split"],
+    "underscore": ["_private", "_x", "x_", "_X1", "a__b"],
+    "plain": ["RED", "GREEN", "lower_case", "MixedCase", "A1"],
+}
+# names the enum module cannot define as members under their own name (finding C04-F31): stream enum_reserved only
+ENUM_RESERVED = ["mro", "_order_", "_ignore_", "_missing_", "_name_", "_value_", "_generate_next_value_", "_sunder_"]
+
+
+def is_sunder(name: str) -> bool:
+    return len(name) > 2 and name[0] == name[-1] == "_" and name[1] != "_" and name[-2] != "_"
+
+
+def enum_reserved_value(name: str) -> bool:
+    return name == "mro" or is_sunder(name)
+
+
+SCALARS_IMPL = ("from datetime import datetime\n"
+                "def parse_dt(v):\n    return datetime.fromisoformat(v)\n"
+                "def ser_dt(v):\n    return v.isoformat()\n")
+
+
+def references(seed: int, rng: random.Random, reserved: bool = False) -> Scenario | None:
+    """One schema family that exercises every kind of reference between generated modules:
+    input_types -> enums (annotations; members as defaults at top level, in list defaults, inside object defaults,
+    inside lists of objects), input_types -> input_types (nested, recursive, defaults by object), input_types ->
+    base_model (Upload), input_types/result modules/fragments/client -> custom scalar modules (type, parse,
+    serialize), client -> input_types/enums/result modules/base_model (variables incl. defaults, Upload),
+    result modules -> enums / fragments (bases) / mixin modules / sibling classes (forward references),
+    fragments -> enums / mixin modules / fragments, custom_* modules -> enums / input_types / scalars (argument
+    types and defaults of every root field), __init__ -> all of them.  Enum values are drawn from Python keywords,
+    soft keywords, Enum/str attribute names, underscore forms (and, with reserved=True, names Enum reserves)."""
+    cats = list(ENUM_VALUE_POOL)
+
+    def values(n):
+        out = []
+        while len(out) < n:
+            v = rng.choice(ENUM_VALUE_POOL[rng.choice(cats)])
+            if v not in out:
+                out.append(v)
+        return out
+
+    color = values(rng.randint(3, 5))
+    sort = values(rng.randint(2, 4))
+    if reserved:
+        color[rng.randrange(len(color))] = rng.choice(ENUM_RESERVED)
+        if rng.random() < 0.5:
+            sort[rng.randrange(len(sort))] = rng.choice(ENUM_RESERVED)
+        color = list(dict.fromkeys(color))
+        sort = list(dict.fromkeys(sort))
+    c = lambda: rng.choice(color)  # noqa: E731
+    s = lambda: rng.choice(sort)  # noqa: E731
+    if reserved:  # make sure a reserved value is also USED as a default somewhere
+        rc = [v for v in color if enum_reserved_value(v)]
+        c0 = rc[0] if rc else c()
+    else:
+        c0 = c()
+    sdl = f"""scalar DateTime
+scalar Decimal
+scalar Upload
+
+enum Color {{ {' '.join(color)} }}
+enum Sort {{ {' '.join(sort)} }}
+
+input Inner {{
+  color: Color = {c0}
+  sorts: [Sort!] = [{s()}, {s()}]
+  when: DateTime
+  amount: Decimal
+  file: Upload
+  next: Inner
+}}
+
+input Filter {{
+  color: Color! = {c()}
+  colors: [Color] = [{c0}, {c()}]
+  matrix: [[Color!]!] = [[{c()}], [{c()}, {c0}]]
+  inner: Inner = {{color: {c0}, sorts: [{s()}]}}
+  inners: [Inner!] = [{{color: {c()}}}, {{sorts: [{s()}], next: {{color: {c0}}}}}]
+  sort: Sort
+  q: String = "x"
+  file: Upload
+  at: DateTime = "2020-01-01T00:00:00"
+}}
+
+interface Node {{ id: ID! color: Color }}
+
+type Item implements Node {{
+  id: ID!
+  color: Color
+  sort: Sort!
+  sorts: [Sort!]
+  at: DateTime
+  amount: Decimal
+  parent: Item
+  related(by: Sort = {s()}, filter: Filter, colors: [Color!] = [{c0}]): [Node!]!
+}}
+
+type Other implements Node {{ id: ID! color: Color name: String owner: Item }}
+
+union Thing = Item | Other
+
+type Query {{
+  items(filter: Filter, sort: Sort = {s()}, colors: [Color!] = [{c()}, {c0}]): [Item!]!
+  node(id: ID!, color: Color): Node
+  thing(at: DateTime, amount: Decimal): Thing
+  color(c: Color = {c0}): Color
+}}
+
+type Mutation {{
+  upload(file: Upload!, files: [Upload!], filter: Filter = {{color: {c0}}}): Item
+  save(input: Inner!, inputs: [Inner!] = [{{color: {c()}}}]): Node
+}}
+"""
+    mix = lambda p, n: (f' @mixin(from: "mixins_impl", import: "Mixin{n}")' if rng.random() < p else "")  # noqa: E731
+    ops = [
+        f"query ListItems($filter: Filter = {{color: {c0}, inner: {{color: {c()}, sorts: [{s()}]}}}}, $sort: Sort = {s()}, "
+        f"$colors: [Color!] = [{c0}]) {{ items(filter: $filter, sort: $sort, colors: $colors) {{ ...ItemFields "
+        f"related(by: {s()}, colors: [{c()}]){mix(0.4, 'B')} {{ id color ... on Item {{ sort sorts }} ...NodeColor }} }} }}",
+        f"query GetNode($id: ID!, $c: Color = {c0}) {{ node(id: $id, color: $c) {{ id color ...ItemFields ... on Other "
+        f"{{ name owner{mix(0.4, 'C')} {{ ...ItemBrief }} }} }} }}",
+        "query GetThing($at: DateTime, $amount: Decimal) { thing(at: $at, amount: $amount) { __typename ... on Item "
+        "{ at amount color ...ItemBrief } ... on Other { color ...NodeColor } } }",
+        f"query LiteralColor {{ color(c: {c0}) second: color(c: {c()}) }}",
+        "mutation UploadFile($file: Upload!, $files: [Upload!], $filter: Filter) { upload(file: $file, files: $files, "
+        "filter: $filter) { ...ItemFields } }",
+        f"mutation Save($input: Inner!, $inputs: [Inner!] = [{{color: {c0}, sorts: [{s()}]}}]) {{ save(input: $input, "
+        f"inputs: $inputs) {{ id ...NodeColor ... on Item {{ parent {{ ...ItemBrief }} }} }} }}",
+    ]
+    rng.shuffle(ops)
+    ops = ops[: rng.randint(3, len(ops))]
+    frs = [
+        f"fragment ItemFields on Item{mix(0.5, 'A')} {{ id color sort at amount ...ItemBrief parent{mix(0.3, 'B')} {{ id color sorts }} }}",
+        "fragment ItemBrief on Item { id sorts ...NodeColor }",
+        f"fragment NodeColor on Node{mix(0.3, 'C')} {{ color }}",
+    ]
+    rng.shuffle(frs)
+    queries = "\n\n".join(ops + frs) + "\n"
+    if not valid(sdl, queries):
+        return None
+    from .frag_scen import MIXINS_PY
+
+    sv = rng.choice(["none", "types", "full"])
+    cfg = {"convert_to_snake_case": rng.random() < 0.7}
+    files = {"mixins_impl.py": MIXINS_PY}
+    if sv == "types":
+        cfg["scalars"] = {"DateTime": {"type": "datetime.datetime"}, "Decimal": {"type": "decimal.Decimal"}}
+    elif sv == "full":
+        files["scalars_impl.py"] = SCALARS_IMPL
+        cfg["scalars"] = {"DateTime": {"type": "datetime.datetime", "parse": "scalars_impl.parse_dt",
+                                       "serialize": "scalars_impl.ser_dt"},
+                          "Decimal": {"type": "decimal.Decimal", "parse": "decimal.Decimal", "serialize": "str"}}
+    return Scenario(seed=seed, sdl=sdl, queries=queries, config=cfg,
+                    features=("enum_reserved",) if reserved else ("references",), files=files,
+                    notes={"enum_values": {"Color": color, "Sort": sort}, "scalars_variant": sv,
+                           "pinned": ["scalars"] if "scalars" in cfg else []})
